@@ -165,7 +165,9 @@ class Impl128:
         for q in range(4):
             pg = vis[q]
             exp = BASE_BYTES[q * 0x4000:(q + 1) * 0x4000]
-            if bytes(pg) != exp:
+            # (a page that equals the pattern again can still differ from pattern + overlay: a store of the pattern's value
+            #  into an overlaid cell)
+            if bytes(pg) != exp or any(a // 0x4000 == q for a in ov):
                 for x in range(0x4000):
                     a = q * 0x4000 + x
                     if pg[x] != ov.get(a, BASE[a]):
@@ -223,6 +225,7 @@ def impls():
 B8 = (0x00, 0x01, 0x0F, 0x10, 0x7F, 0x80, 0xFE, 0xFF, 0x99, 0x9A, 0x66, 0xA5)
 B16 = (0x0000, 0x0001, 0x00FF, 0x0100, 0x0FFF, 0x1000, 0x3FFE, 0x3FFF, 0x4000, 0x4001, 0x7FFF, 0x8000, 0xFFFE, 0xFFFF,
        0xF000, 0xEFFF)
+EDGE_W = (None, 0xFFFF, 0x3FFF, None, 0xFFFE, None, 0x3FFE, None, 0x0000, None)
 PCS = (0x8000, 0x8000, 0x8000, 0x6000, 0xC123, 0xFFFC, 0xFFFD, 0xFFFE, 0xFFFF, 0x3FFE, 0x3FFF, 0x4000, 0x0000)
 # frame positions that are never contended (top border) so that the CMIO simulators add no delay
 TS48 = (0, 1, 20, 22, 23, 27, 28, 31, 32, 100, 5000, 69888 - 4, 69888 - 9, 69888 - 5, 69888 - 1, 69888 + 23, 69888 * 2 - 4)
@@ -268,6 +271,14 @@ def make_case(slot, rnd, variant=0, frame=69888, ia=32):
         ins.append(r8(rnd) if b is None else b)
     while len(ins) < 4:
         ins.append(r8(rnd))
+    if len(lead) <= 2:
+        # a 16-bit immediate (where the instruction has one) at an edge: LD (0xFFFF),rr stores its second byte at 0x0000,
+        # LD (0x3FFF),rr its first byte in ROM.  Variants 1 and 2 of every slot have these two values, others sometimes.
+        w = EDGE_W[variant % len(EDGE_W)]
+        if w is None and rnd.random() < 0.25:
+            w = rnd.choice(B16)
+        if w is not None:
+            ins[len(lead)], ins[len(lead) + 1] = w & 255, w >> 8
     regs = [0] * N_REGS
     for i in (A, F, B, C, D, E, H, L, IXh, IXl, IYh, IYl, I, R, 16, 17, 18, 19, 20, 21, 22, 23):
         regs[i] = r8(rnd)
